@@ -23,6 +23,16 @@ JUMPS_MS = [0, 10, 300, 700, 1100, 2500]
 MAIN = "main"
 
 
+class _Waiter:
+    """Something a baton thread waits for (same protocol as SimLock)."""
+
+    def __init__(self, pred):
+        self.pred = pred
+
+    def _free_for(self, me):
+        return self.pred()
+
+
 class Deadlock(Exception):
     """Raised inside simulated code when every baton thread is blocked."""
 
@@ -64,6 +74,7 @@ class Sim:
         self.pools = []
         self.stalled = set()      # baton threads held back while others run
         self.script = None        # DirectedSchedule instead of random choices
+        self.deadlines = {}       # sleeping baton thread -> wake-up time (ms)
 
     # -- bookkeeping -------------------------------------------------------
     def ev(self, *a):
@@ -108,7 +119,8 @@ class Sim:
         if self.script is not None:
             self.script.step(self, me, where, clock_ok)
             return
-        if clock_ok and self.timers and not self.main_parked:
+        if clock_ok and (self.timers or self.deadlines) \
+                and not self.main_parked:
             pc = self.p_clock if me == MAIN else self.p_clock / 4.0
             if self.dec.flip("clock?", pc):
                 j = self.dec.choose("jump", len(JUMPS_MS), self.jump_weights)
@@ -168,6 +180,53 @@ class Sim:
             k = self.dec.choose("next", len(others))
             self._switch_to(others[k], where)
             self.blocked.pop(me, None)
+
+    def next_event_ms(self):
+        """Earliest pending timer or sleeper deadline (None if there is none)."""
+        cand = [t.due_ms for t in self.timers] + [
+            d for d in self.deadlines.values() if d is not None]
+        return min(cand) if cand else None
+
+    def wait_until(self, pred, timeout_s, where):
+        """Block the current baton thread until pred() holds or the timeout
+        (virtual seconds) passes.  Returns pred()."""
+        me = self.current
+        deadline = None if timeout_s is None else \
+            self.now_ms + max(0, int(round(timeout_s * 1000)))
+        waiter = _Waiter(lambda: pred() or (
+            deadline is not None and self.now_ms >= deadline))
+        guard = 0
+        while not waiter.pred():
+            guard += 1
+            if guard > 100000:
+                raise HarnessError("wait does not terminate at %s" % where)
+            self.blocked[me] = waiter
+            self.deadlines[me] = deadline
+            others = self._candidates(me)
+            if not others:
+                nxt = self.next_event_ms()
+                if nxt is None or (self.main_parked and me != MAIN
+                                   and deadline is None):
+                    self.blocked.pop(me, None)
+                    self.deadlines.pop(me, None)
+                    self.deadlock = True
+                    self.ev("deadlock", me, where)
+                    raise Deadlock("nothing can wake %s at %s" % (me, where))
+                if self.main_parked:
+                    # after the call: time only passes when the oracle says
+                    # so; hand the baton back to the parked caller
+                    self.ev("sleep", me)
+                    self.current = MAIN
+                    self.gates[MAIN].release()
+                    self.gates[me].acquire()
+                    continue
+                self.advance(max(0, nxt - self.now_ms))
+                continue
+            k = self.dec.choose("next", len(others))
+            self._switch_to(others[k], where)
+        self.blocked.pop(me, None)
+        self.deadlines.pop(me, None)
+        return pred()
 
     def thread_finished(self, me):
         """A callback/baton thread ends: hand the baton on."""
@@ -236,9 +295,10 @@ class Sim:
         """Jump from timer to timer for horizon_ms of virtual time."""
         end = self.now_ms + horizon_ms
         fired = 0
-        while self.timers:
-            nxt = min(t.due_ms for t in self.timers)
-            if nxt > end:
+        while self.timers or any(d is not None
+                                 for d in self.deadlines.values()):
+            nxt = self.next_event_ms()
+            if nxt is None or nxt > end:
                 break
             self.now_ms = max(self.now_ms, nxt)
             self.ev("clock", self.now_ms)
@@ -509,27 +569,57 @@ class SimEvent:
         sim = SIM
         if self._flag or sim is None or not sim.active:
             return self._flag
-        deadline = None if timeout is None else sim.now_ms + int(timeout * 1000)
-        guard = 0
-        while not self._flag:
-            guard += 1
-            if guard > 1000:
-                raise HarnessError("event wait does not terminate")
-            me = sim.current
-            others = sim._candidates(me)
-            if others:
-                k = sim.dec.choose("next", len(others))
-                sim._switch_to(others[k], "event.wait")
-                continue
-            nxt = min([t.due_ms for t in sim.timers], default=None)
-            if deadline is not None and (nxt is None or deadline <= nxt):
-                sim.advance(max(0, deadline - sim.now_ms))
-                return self._flag
-            if nxt is None:
-                sim.deadlock = True
-                raise Deadlock("event.wait with nothing to wake it")
-            sim.advance(max(0, nxt - sim.now_ms))
-        return True
+        return sim.wait_until(lambda: self._flag, timeout, "event.wait")
+
+
+class SimThread:
+    """threading.Thread as a baton thread of the simulator."""
+    _seq = [0]
+
+    def __init__(self, group=None, target=None, name=None, args=(),
+                 kwargs=None, daemon=None):
+        SimThread._seq[0] += 1
+        self.name = name or "SimThread-%d" % SimThread._seq[0]
+        self._sim_name = "th%d" % SimThread._seq[0]
+        self._target = target
+        self._args = tuple(args)
+        self._kwargs = dict(kwargs or {})
+        self.daemon = bool(daemon)
+        self._started = False
+        self._finished = False
+
+    def run(self):
+        if self._target is not None:
+            self._target(*self._args, **self._kwargs)
+
+    def start(self):
+        sim = SIM
+        if self._started:
+            raise RuntimeError("threads can only be started once")
+        self._started = True
+        sim.ev("thread-start", self._sim_name, sim.current)
+        sim.probe("helper_thread_started")
+
+        def body():
+            try:
+                self.run()
+            finally:
+                self._finished = True
+        sim.spawn(self._sim_name, body)
+
+    def is_alive(self):
+        return self._started and not self._finished
+
+    def join(self, timeout=None):
+        if not self._started:
+            raise RuntimeError("cannot join thread before it is started")
+        sim = SIM
+        if sim is None or not sim.active:
+            return
+        sim.wait_until(lambda: self._finished, timeout, "thread.join")
+
+    def setDaemon(self, v):  # noqa: N802
+        self.daemon = v
 
 
 class ThreadingShim(types.ModuleType):
@@ -541,6 +631,7 @@ class ThreadingShim(types.ModuleType):
         self.Lock = SimLock
         self.RLock = SimRLock
         self.Event = SimEvent
+        self.Thread = SimThread
 
     def __getattr__(self, name):
         return getattr(threading, name)
